@@ -3,22 +3,22 @@
 # demo fails with the change, passes without it, existing suite passes with it.
 set -u
 export GOFLAGS=-mod=mod GOPROXY=off GOSUMDB=off GOTOOLCHAIN=local
-SRC="$1"; LOG="$2"
+SRC="$1"; LOG="$2"; PKG="${3:-leveldb}"
 WT="$(mktemp -d /tmp/seedconfirm.XXXXXX)"
 git -C /repo worktree add -f "$WT" HEAD -q
 cd "$WT"
 {
 echo "== confirm $(basename "$SRC") at $(git rev-parse --short HEAD)"
 git apply "$SRC/patch.diff" || { echo "PATCH-DOES-NOT-APPLY"; }
-cp "$SRC/demo_test.go" leveldb/zz_seed_demo_test.go
-RUN="$(grep -oE 'func (Test[A-Za-z0-9_]+)' leveldb/zz_seed_demo_test.go | awk '{print $2}' | paste -sd'|')"
+cp "$SRC/demo_test.go" $PKG/zz_seed_demo_test.go
+RUN="$(grep -oE 'func (Test[A-Za-z0-9_]+)' $PKG/zz_seed_demo_test.go | awk '{print $2}' | paste -sd'|')"
 echo "-- demo with change (expect FAIL): $RUN"
-go test -vet=off -count=1 -timeout 10m ./leveldb/ -run "^($RUN)\$" 2>&1 | tail -4
+go test -vet=off -count=1 -timeout 10m ./$PKG/ -run "^($RUN)\$" 2>&1 | tail -4
 git apply -R "$SRC/patch.diff"
 echo "-- demo without change (expect ok)"
-go test -vet=off -count=1 -timeout 10m ./leveldb/ -run "^($RUN)\$" 2>&1 | tail -2
+go test -vet=off -count=1 -timeout 10m ./$PKG/ -run "^($RUN)\$" 2>&1 | tail -2
 git apply "$SRC/patch.diff"
-rm -f leveldb/zz_seed_demo_test.go
+rm -f $PKG/zz_seed_demo_test.go
 echo "-- existing suite with change (expect all ok)"
 go test -vet=off -count=1 -timeout 25m ./... 2>&1 | grep -v "no test files" | tail -12
 } >> "$LOG" 2>&1
